@@ -319,6 +319,97 @@ proof { lemma_flat_occ_stmts(pd.statements, name@, |s: Reference<Statement>| ids
             
 //@end
 
+// ---------- find_procs: calls of a procedure in every statement shape, and its declaration
+pub open spec fn pocc_stmt(s: Statement, name: Seq<char>) -> Seq<Identifier>
+    decreases s, 0nat
+{
+    match s {
+        Statement::Block(b) => pocc_stmts(b.statements, name, b.statements@.len()),
+        Statement::Call(c) => if c.name.value@ == name { seq![c.name] } else { Seq::empty() },
+        Statement::If(i) => (match i.if_branch { Some(b) => ids_plus(pocc_stmt(b.reference, name), b.offset as int), None => Seq::empty() })
+            + (match i.else_branch { Some(b) => ids_plus(pocc_stmt(b.reference, name), b.offset as int), None => Seq::empty() }),
+        Statement::While(w) => match w.statement { Some(b) => ids_plus(pocc_stmt(b.reference, name), b.offset as int), None => Seq::empty() },
+        _ => Seq::empty(),
+    }
+}
+pub open spec fn pocc_stmts(v: Vec<Reference<Statement>>, name: Seq<char>, n: nat) -> Seq<Identifier>
+    decreases v, n
+{
+    if n == 0 || n > v@.len() { Seq::empty() } else { pocc_stmts(v, name, (n - 1) as nat) + ids_plus(pocc_stmt(v@[n - 1].reference, name), v@[n - 1].offset as int) }
+}
+pub open spec fn pfit_stmt(s: Statement, name: Seq<char>) -> bool
+    decreases s, 0nat
+{
+    match s {
+        Statement::Block(b) => pfit_stmts(b.statements, name, b.statements@.len()),
+        Statement::If(i) => (match i.if_branch { Some(b) => pfit_stmt(b.reference, name) && ids_fit(pocc_stmt(b.reference, name), b.offset as int), None => true })
+            && (match i.else_branch { Some(b) => pfit_stmt(b.reference, name) && ids_fit(pocc_stmt(b.reference, name), b.offset as int), None => true }),
+        Statement::While(w) => match w.statement { Some(b) => pfit_stmt(b.reference, name) && ids_fit(pocc_stmt(b.reference, name), b.offset as int), None => true },
+        _ => true,
+    }
+}
+pub open spec fn pfit_stmts(v: Vec<Reference<Statement>>, name: Seq<char>, n: nat) -> bool
+    decreases v, n
+{
+    if n == 0 || n > v@.len() { true } else { pfit_stmts(v, name, (n - 1) as nat) && pfit_stmt(v@[n - 1].reference, name) && ids_fit(pocc_stmt(v@[n - 1].reference, name), v@[n - 1].offset as int) }
+}
+pub proof fn lemma_flat_pocc_stmts(v: Vec<Reference<Statement>>, name: Seq<char>, g: spec_fn(Reference<Statement>) -> Seq<Identifier>, n: nat)
+    requires n <= v@.len(), forall|s: Reference<Statement>| #[trigger] g(s) == ids_plus(pocc_stmt(s.reference, name), s.offset as int),
+    ensures flat_ids(v@, g, n) == pocc_stmts(v, name, n), //# lemma_flat_pocc_stmts
+    decreases n
+{ if n > 0 { lemma_flat_pocc_stmts(v, name, g, (n - 1) as nat); } }
+pub proof fn lemma_pfit_stmts(v: Vec<Reference<Statement>>, name: Seq<char>, n: nat, i: int)
+    requires pfit_stmts(v, name, n), n <= v@.len(), 0 <= i < n,
+    ensures pfit_stmt(v@[i].reference, name) && ids_fit(pocc_stmt(v@[i].reference, name), v@[i].offset as int), //# lemma_pfit_stmts
+    decreases n
+{ if i < n - 1 { lemma_pfit_stmts(v, name, (n - 1) as nat, i); } }
+//@extract lsp4spl/src/features/references.rs :: fn find_procs :: fn find_in_statement
+//@ rename find_in_statement find_procs_in_statement
+//@ rewrite vec_extend flat_map_collect map_or_inline string_eq_str
+//@ ret r
+//@ attr
+    #[verifier::exec_allows_no_decreases_clause]
+//@ sig
+        requires pfit_stmt(*stmt, name@),
+        ensures
+            r@ == pocc_stmt(*stmt, name@), //# find_procs::find_in_statement::exactly_the_calls_in_every_statement_shape
+//@ before "flat_map_collect(&b.statements"
+{ proof { assert forall|i: int| 0 <= i < b.statements@.len() implies pfit_stmt((#[trigger] b.statements@[i]).reference, name@) && ids_fit(pocc_stmt(b.statements@[i].reference, name@), b.statements@[i].offset as int) by { lemma_pfit_stmts(b.statements, name@, b.statements@.len(), i); } }
+                let r_ = 
+//@ before ",\n            Statement::Call(c)"
+; proof { lemma_flat_pocc_stmts(b.statements, name@, |s: Reference<Statement>| ids_plus(pocc_stmt(s.reference, name@), s.offset as int), b.statements@.len()); } r_ }
+//@ closure |stmt| : &Reference<Statement>
+ -> (out: Vec<Identifier>)
+                    requires pfit_stmt(stmt.reference, name@) && ids_fit(pocc_stmt(stmt.reference, name@), stmt.offset as int),
+                    ensures out@ == ids_plus(pocc_stmt(stmt.reference, name@), stmt.offset as int),
+//@ after_closure |stmt|
+, Ghost(|s: Reference<Statement>| ids_plus(pocc_stmt(s.reference, name@), s.offset as int))
+//@end
+/// "rename returns one edit per occurrence of that binding (declaration included)": the procedure's own name, then the calls in its body
+pub open spec fn pocc_proc(pd: ProcedureDeclaration, name: Seq<char>) -> Seq<Identifier> {
+    (match pd.name { Some(id) => if id.value@ == name { seq![id] } else { Seq::empty() }, None => Seq::empty() }) + pocc_stmts(pd.statements, name, pd.statements@.len())
+}
+//@extract lsp4spl/src/features/references.rs :: fn find_procs :: closure |(pd, offset)|
+//@ rename find_in_statement find_procs_in_statement
+//@ rewrite vec_extend flat_map_collect string_eq_str
+//@ lift pub fn find_procs_in_proc(pd: &ProcedureDeclaration, offset: usize, name: &str) -> (r: Vec<Identifier>)
+//@ sig
+    requires pfit_stmts(pd.statements, name@, pd.statements@.len()), ids_fit(pocc_proc(*pd, name@), offset as int),
+    ensures r@ == ids_plus(pocc_proc(*pd, name@), offset as int), //# find_procs::declaration_and_every_call_in_the_procedure
+//@ closure |stmt| : &Reference<Statement>
+ -> (out: Vec<Identifier>)
+                    requires pfit_stmt(stmt.reference, name@) && ids_fit(pocc_stmt(stmt.reference, name@), stmt.offset as int),
+                    ensures out@ == ids_plus(pocc_stmt(stmt.reference, name@), stmt.offset as int),
+//@ after_closure |stmt|
+, Ghost(|s: Reference<Statement>| ids_plus(pocc_stmt(s.reference, name@), s.offset as int))
+//@ before "let new_idents: Vec<_> ="
+proof { assert forall|i: int| 0 <= i < pd.statements@.len() implies pfit_stmt((#[trigger] pd.statements@[i]).reference, name@) && ids_fit(pocc_stmt(pd.statements@[i].reference, name@), pd.statements@[i].offset as int) by { lemma_pfit_stmts(pd.statements, name@, pd.statements@.len(), i); } }
+            
+//@ before "idents.shift(offset)"
+proof { lemma_flat_pocc_stmts(pd.statements, name@, |s: Reference<Statement>| ids_plus(pocc_stmt(s.reference, name@), s.offset as int), pd.statements@.len()); }
+            
+//@end
+
 // ---------- find_types::get_ident_in_type_expr: the type name at the bottom of a (nested) array type, with all offsets
 /// the named type a type expression bottoms out in, displaced by every Reference offset on the way (relative to the
 /// Reference that holds `t`'s own Reference)
